@@ -1,6 +1,9 @@
 package reft2
 
-import "math"
+import (
+	"fmt"
+	"math"
+)
 
 // NumEnc selects one of the five operand encodings of TN5177 section 3.2.
 type NumEnc int
@@ -52,7 +55,7 @@ func AppendNumber(buf []byte, v float64, enc NumEnc) []byte {
 		}
 	}
 	if !CanEncode(v, enc) {
-		panic("reft2: number not encodable")
+		panic(fmt.Sprintf("reft2: number %v not encodable as %d", v, enc))
 	}
 	switch enc {
 	case EncByte:
